@@ -11,7 +11,12 @@ open TdModel.C27
 /-- The configuration read from the current source. -/
 def cfgOfSource : Cfg :=
   { handoutChecksDead := Facts.C27.handoutSites == Facts.C27.guardedHandoutSites && Facts.C27.aliveChecksDead
-    createCancelReleases := Facts.C27.createCancelReleases }
+    createCancelReleases := Facts.C27.createCancelReleases && Facts.C27.acqCreateSelect.contains 70 &&
+      !Facts.C27.acqCreateSelect.contains 71
+    bgOffersWaiters := Facts.C27.bgReadyOps == [60]
+    totalUnderCheck := opBefore Facts.C27.acqCreateOps 21 22 && opBefore Facts.C27.acqCreateOps 22 24 &&
+      !Facts.C27.createConnOps.contains 21
+    resetAlways := Facts.C27.deadOps == [1, 2, 3, 4, 5, 6] }
 
 /-- The remaining source facts the model's atomicity assumptions rest on: `transfer` sends under the
 lock, the stuck channel is captured under the pool mutex, `total++` is guarded by the limit inside
@@ -19,6 +24,13 @@ the critical section, waiter channels have capacity 1, `dead` decrements once un
 signals, `release` is one critical section. -/
 def atomicityFacts : Bool :=
   Facts.C27.transferSendsUnderLock && Facts.C27.stuckCapturedUnderMu && Facts.C27.limitGuard &&
-  Facts.C27.waiterChanCap1 && Facts.C27.deadOnceUnderMu && Facts.C27.releaseUnderMu
+  Facts.C27.waiterChanCap1 && Facts.C27.deadOnceUnderMu && Facts.C27.releaseUnderMu &&
+  -- interpreted from the regenerated operation lists
+  opBefore Facts.C27.acqWaitOps 30 31 && opBefore Facts.C27.acqWaitOps 31 32 && opBefore Facts.C27.acqWaitOps 32 33 &&
+  Facts.C27.acqWaitSelect.contains 82 && !Facts.C27.acqWaitSelect.contains 83 &&
+  opBefore Facts.C27.acqWaitOps 40 41 && opBefore Facts.C27.acqStuckOps 40 41 &&
+  opBefore Facts.C27.transferOps 50 51 && opBefore Facts.C27.transferOps 51 52 && opBefore Facts.C27.transferOps 52 54 &&
+  Facts.C27.acqCreateSelect.contains 73 && !Facts.C27.acqCreateSelect.contains 74 &&
+  Facts.C27.acqWaitSelect.contains 80 && !Facts.C27.acqWaitSelect.contains 81
 
 end TdModel.C27
